@@ -1386,6 +1386,29 @@ impl Property for C09 {
         let mut cr = Rng::stream(seed, "config");
         gen_config(&mut cr, &mut sc, None);
         sc.hash_salt = Rng::stream(seed, "hash_salt").next_u64();
+        // on some histories an earlier solve is cancelled at a seeded poll (between any two provider calls): what the
+        // later solves ask for is still judged
+        let mut fr = Rng::stream(seed, "faults");
+        if sc.solves.len() > 1 && fr.chance(1, 2) {
+            sc.spurious_p = 0;
+            let base_rec = execute(&sc);
+            let mut polls: Vec<u64> = Vec::new();
+            let mut cur = 0u64;
+            for e in &base_rec.log {
+                match e {
+                    Ev::SolveBegin(_) => cur = 0,
+                    Ev::CancelPoll { .. } => cur += 1,
+                    Ev::SolveEnd(_) => polls.push(cur),
+                    _ => {}
+                }
+            }
+            let last = sc.solves.len() - 1;
+            for (i, s) in sc.solves.iter_mut().enumerate() {
+                if i < last && i < polls.len() && polls[i] > 0 && fr.chance(2, 3) {
+                    s.cancel = Some(CancelPlan { at_poll: fr.below(polls[i] as usize) as u64, mode: CancelMode::Persistent });
+                }
+            }
+        }
         vec![sc]
     }
     fn judge(&self, sc: &Scenario) -> Verdict {
@@ -1479,7 +1502,18 @@ impl Property for C09 {
                         }
                         let extra_n: Vec<u32> = asked_cand.difference(&names).copied().collect();
                         let missing_n: Vec<u32> = names.iter().copied().filter(|x| !before_cand.contains(x) && !asked_cand.contains(x)).collect();
-                        if !extra_n.is_empty() || !missing_n.is_empty() {
+                        // names that dependency sets obtained by earlier solves mention but whose candidates no earlier
+                        // solve obtained: only a solve that was cancelled between the two requests leaves any
+                        let mut orphaned: BTreeSet<u32> = BTreeSet::new();
+                        for x in &before_deps {
+                            if let Some((r, c)) = sc.world.known_deps(*x) {
+                                orphaned.extend(sc.world.names_mentioned(r, c).into_iter().filter(|n| !before_cand.contains(n)));
+                            }
+                        }
+                        let earlier_cancelled = sc.solves[..*i].iter().any(|s| s.cancel.is_some());
+                        if missing_n.is_empty() && !extra_n.is_empty() && earlier_cancelled && extra_n.iter().all(|n| orphaned.contains(n)) {
+                            v.violate("exact:cand-after-cancelled-solve", format!("solve #{i} (conflict-free): candidates fetched for {extra_n:?}, which neither the root nor the solution mentions; they are mentioned by dependencies that an earlier, cancelled solve obtained for solvables that are not installed now"));
+                        } else if !extra_n.is_empty() || !missing_n.is_empty() {
                             v.violate("exact:cand", format!("solve #{i} (conflict-free): candidates fetched for {asked_cand:?}, names mentioned by root and solution are {names:?} (extra {extra_n:?}, missing {missing_n:?})"));
                         }
                     }
